@@ -17,7 +17,7 @@
 #define VX_MAXALT 48
 #define VX_MAXPTS 800
 #define VX_OBS_MAX (48 * 1024)
-#define VX_MAXFAIL 4
+#define VX_MAXFAIL 16
 
 typedef void (*vx_run_fn)(void *arg);
 
